@@ -1,5 +1,5 @@
 #!/usr/bin/env python3
-"""C03 - flush and merge never change what queries return (measure engine + ordered secondary index)."""
+"""C03 - flush and merge never change what queries return (measure and stream engines)."""
 import sys
 sys.path.insert(0, '/verif/tools'); sys.path.insert(0, '/verif/checks')
 from vf import core
@@ -16,18 +16,44 @@ fams = [
     dict(name='measure-merge-subsets', series=[1, 2], times=[1, 2], versions=[1, 2], versioned=True, maxrows=1, maxtotal=4,
          maxops=6 if c.quick else 9, graphops=0, sims=220 if c.quick else 2000, simops=12),
     dict(name='measure-merge-batches', series=[1, 2], times=[1, 2], versions=[1, 2], versioned=True, maxrows=2, maxtotal=4,
-         maxops=4 if c.quick else 7, graphops=0, sims=100 if c.quick else 1000, simops=12, sim=dict(times=[1, 2, 3], maxtotal=6)),
+         maxops=4 if c.quick else 7, graphops=0, sims=60 if c.quick else 1000, simops=12, sim=dict(times=[1, 2, 3], maxtotal=6)),
+]
+# ---- big blocks and big parts ("ballast", see harness/pkg/eng/main.go): the abstract rows of Engine.tla stay few, every
+# write batch additionally carries (deep) 300 rows of ONE series with a high-cardinality string tag - blocks of hundreds of
+# rows, columns that leave the dictionary encoding, fan-in 2 and 3 for one series - or (wide) one row in each of 3000 extra
+# series - parts with thousands of blocks and several primary index blocks.  Ballast is verified by every covering query.
+from engcommon import leaf, crit, query
+def fan_in(b):
+    for st in b[1:]:
+        if st['last'].get('op') == 'merge':
+            return 'fan-in-%d' % len(st['last']['inputs'])
+    return None
+WQ = [query(lo, hi, [1, 2, 3], crit('one', leaf())) for lo, hi in ((1, 1), (3, 3), (1, 3), (2, 2), (1, 2), (2, 3))]
+W3 = ['write', 'flush', 'write', 'flush', 'write', 'flush', 'merge']
+W2 = ['write', 'flush', 'write', 'flush', 'merge', 'queryall']
+nb = 1 if c.quick else 4
+fams += [
+    dict(name='measure-merge-deep-blocks', series=[1, 2], times=[1, 2, 3], versions=[1], versioned=True, maxrows=1, maxtotal=3, maxops=7, graphops=0,
+         sims=200, simops=7, script=W3, ballast=300, ballast_mode='deep', select=fan_in, per_class=6 * nb, procs=1),
+    dict(name='measure-merge-wide-parts', series=[1, 2, 3], times=[1, 2, 3], versions=[1], versioned=True, maxrows=1, maxtotal=2, maxops=6, graphops=0,
+         sims=8 * nb, simops=6, script=W2, queries=WQ, ballast=3000, ballast_mode='wide', sim=dict(maxrows=2, maxtotal=4), procs=2),
 ]
 def nontrivial(st):
     ops = [x['last'].get('op') for x in st[1:]]
     return 'merge' in ops
 import stream_fams
 fams += stream_fams.c03(c)
+fams += [
+    stream_fams._fam(name='stream-merge-deep-blocks', series=[1, 2], times=[1, 2, 3], maxrows=1, maxtotal=3, maxops=7, sims=200, simops=7,
+                     script=W3, ballast=300, ballast_mode='deep', select=fan_in, per_class=8 * nb, procs=1),
+    stream_fams._fam(name='stream-merge-wide-parts', series=[1, 2, 3], times=[1, 2, 3], maxrows=1, maxtotal=2, maxops=6, sims=6 * nb, simops=6,
+                     script=W2, queries=WQ, ballast=3000, ballast_mode='wide', sim=dict(maxrows=2, maxtotal=4), procs=2),
+]
 tot, stats, samples, nontriv, cover = ec.run_families(c, fams, binp, nontrivial)
 c.cov.update(states=tot['states'], transitions=tot['transitions'], traces_validated_against_impl=0,
              behaviours_replayed=tot['behaviours'], steps_replayed=tot['steps'], simulated_behaviours=tot['sims'],
              evaluations=tot['behaviours'], distinct_nontrivial=nontriv,
              rule='-simulate behaviours of Engine.tla with write/flush/merge(any subset of file parts) steps; the flush and the merge of the TLC-chosen parts are executed by the real flusher/merger code inside a running stand-alone server and after EVERY step the covering query result (and the part layout: ids, mem/file, row counts) must equal the spec; non-trivial = contains a merge',
              harness_stats=stats, action_coverage=cover, samples=samples)
-c.assumptions += ['measure engine over gRPC; the ordered secondary index is covered by the sidx component when registered', 'one shard, one segment']
+c.assumptions += ['measure and stream engines over gRPC; the ordered secondary index is covered by the sidx component of C09', 'one shard, one segment', 'big blocks / parts through ballast rows (300 per series, 3000 series per batch), not through the spec rows']
 c.finish()
